@@ -527,6 +527,39 @@ def run(ctx):
         if impl == "ok" and e["coq"] and not e["coq"].startswith("<<"):
             accepted.append((cid, d, e["coq"]))
     acc = outcome_hist["ok"] / max(1, len(items))
+    # ---- block-ref accessors (L2 below compiles definitions WITHOUT block refs only): the accessor a block ref emits has the
+    # ref's own offset and repeat where it gives them and the target's otherwise — the values the fit check and the internal
+    # type were computed for (seed C13-8 let the target's REPEAT win in the accessor only)
+    if not bad:
+        bref = [(cid, d) for (cid, d, _) in accepted if any(o["kind"] == "ref" and o["override"]["kind"] == "block" for o, _, _ in ac.all_objects(d["objects"]))]
+        bref = bref[:150 if ctx.tier == "quick" else 2000]
+        if bref:
+            cases2 = [{"id": cid, "syntax": "dsl", "text": adef.render(d, "dsl"), "name": ac.DEV, "want": ["facts"]} for cid, d in bref]
+            res2 = gen_common.run_gen(ctx, exe, cases2, tag="c13f")
+            sn = lambda n: re.sub(r"(?<!^)(?=[A-Z])", "_", n).lower()
+            for cid, d in bref:
+                facts = (res2.get(cid) or {}).get("facts")
+                if not facts:
+                    continue
+                blocks = {b["name"]: b for b in facts["blocks"]}
+                for o, siblings, depth in ac.all_objects(d["objects"]):
+                    if not (o["kind"] == "ref" and o["override"]["kind"] == "block"):
+                        continue
+                    t = ac.find_obj(d["objects"], o["target"])
+                    ov = o["override"]
+                    want_off = ov.get("address_offset") if ov.get("address_offset") is not None else (t.get("address_offset") or 0)
+                    want_rep = ov.get("repeat") or t.get("repeat")
+                    mfs = [m for b in blocks.values() for m in b["methods"] if m["name"] == sn(o["name"]) and m["kind"] == "block"]
+                    stats["block_ref_accessors_compared"] += 1
+                    if len(mfs) != 1:
+                        continue
+                    m = mfs[0]
+                    got = (m.get("address"), m.get("count"), (m.get("stride") if m.get("op") != "-" else -m.get("stride")) if m.get("stride") is not None else None)
+                    want = (want_off, want_rep["count"] if want_rep else None, abs(want_rep["stride"]) * (1 if want_rep["stride"] >= 0 else -1) if want_rep else None)
+                    if got != want:
+                        bad.append((cid, f"block ref {o['name']}: the emitted accessor has (offset, count, stride) = {got}, the definition says {want} "
+                                         f"(the ref's own values where it gives them, the target's otherwise)"))
+                        break
     # ---- L2
     l2stats, l2viols, l2known, l2samples = collections.Counter(), [], {}, []
     if not bad:
